@@ -346,7 +346,9 @@ class AbstractPairing(metaclass=ABCMeta):
         self._update_accessories_state_cache()
 
     async def subscribe(self, characteristics: Iterable[tuple[int, int]]) -> set[tuple[int, int]]:
-        new_characteristics = set(characteristics) - self.subscriptions
+        # characteristics may be a single-pass iterable so only go over it once
+        characteristics = set(characteristics)
+        new_characteristics = characteristics - self.subscriptions
         self.subscriptions.update(characteristics)
         return new_characteristics
 
